@@ -57,6 +57,50 @@ class ExtFn(StandIn):
         return impl(*a, **k)
 
 
+class RepoFnValue(StandIn):
+    """a function of the repository used as a value (`f = IntegratePlanar.vertical; f(x)`): calling it is answered
+    exactly like the direct call `IntegratePlanar.vertical(x)` (rule hook first, then the function's body)"""
+
+    def __init__(self, runner, owner, fn):
+        self._runner, self._owner, self._fn = runner, owner, fn
+
+    def __repr__(self):
+        return "fn:" + self._fn.qname
+
+    def __call__(self, *args, **kwargs):
+        rn, fn = self._runner, self._fn
+        node = ast.Call(func=ast.Attribute(value=ast.Name(id=fn.cls or "?", ctx=ast.Load()), attr=fn.name, ctx=ast.Load()),
+                        args=[], keywords=[])
+        if rn.user_hook:
+            r = rn.user_hook(rn, None, node, fn.name, self._owner, list(args), kwargs)
+            if r is not NotImplemented:
+                return r
+        if fn.qname in rn.enter or rn.depth < 6:
+            rn.depth += 1
+            try:
+                return rn.call_fn(fn, list(args), kwargs)
+            finally:
+                rn.depth -= 1
+        raise Undecided("call of function value " + fn.qname)
+
+
+class ClassValue(Obj):
+    """a class of the repository used as a value (`map(Point2D, xs)`): calling it is answered like `Point2D(x)`"""
+
+    def __init__(self, runner, cname):
+        Obj.__init__(self, "class:" + cname)
+        self.__dict__["_runner"], self.__dict__["_cname"] = runner, cname
+
+    def __call__(self, *args, **kwargs):
+        rn = self._runner
+        node = ast.Call(func=ast.Name(id=self._cname, ctx=ast.Load()), args=[], keywords=[])
+        if rn.user_hook:
+            r = rn.user_hook(rn, None, node, self._cname, self, list(args), kwargs)
+            if r is not NotImplemented:
+                return r
+        raise Undecided("constructor value " + self._cname)
+
+
 class Runner:
     """runs functions of `model` abstractly.
     enter : set of qnames whose bodies are interpreted when called
@@ -90,12 +134,28 @@ class Runner:
                 if di < 0:
                     raise Undecided(f"missing argument {n} of {fn.qname}")
                 env[n] = Ev({}).ev(defaults[di])
+        if a.vararg is not None:
+            env[a.vararg.arg] = tuple(args[len(names):])
+        elif len(args) > len(names):
+            raise Undecided(f"too many arguments for {fn.qname}")
+        if a.kwarg is not None:
+            known = set(names) | {p.arg for p in a.kwonlyargs}
+            env[a.kwarg.arg] = {k: v for k, v in kwargs.items() if k not in known}
         for p, d in zip(a.kwonlyargs, a.kw_defaults):
             env[p.arg] = kwargs[p.arg] if p.arg in kwargs else (Ev({}).ev(d) if d is not None else None)
         for k, v in EXTRA_GLOBALS.items():
             env.setdefault(k, v)
         for cname in self.ctx.model.classes:
-            env.setdefault(cname, Obj("class:" + cname))
+            env.setdefault(cname, ClassValue(self, cname))
+        modast = self.ctx.model.modules.get(fn.mod)
+        for st in (modast.body if modast is not None else []):
+            if isinstance(st, (ast.Assign, ast.AnnAssign)) and getattr(st, "value", None) is not None:
+                tg = st.targets[0] if isinstance(st, ast.Assign) else st.target
+                if isinstance(tg, ast.Name) and tg.id not in env:
+                    try:
+                        env[tg.id] = ast.literal_eval(st.value)       # module-level literal constants only
+                    except (ValueError, TypeError, SyntaxError, MemoryError, RecursionError):
+                        pass
         for mod in ("np", "math", "pynurbs", "fractions"):
             env.setdefault(mod, ExtFn(self, mod))
         for k, v in EXTRA_GLOBALS.items():
@@ -118,6 +178,10 @@ class Runner:
         if isinstance(base, Obj):
             if node.attr in base.__dict__:
                 return base.__dict__[node.attr]
+            if base._name.startswith("class:") and not isinstance(getattr(node, "ctx", None), ast.Store):
+                m = self.ctx.model.methods.get(base._name[6:], {}).get(node.attr)
+                if m is not None and m.kind in ("static", "class"):
+                    return RepoFnValue(self, base, m)
             raise Undecided(f"attribute {node.attr} of abstract object {base}")
         if isinstance(base, StandIn) and hasattr(base, node.attr):
             return getattr(base, node.attr)
@@ -142,6 +206,17 @@ class Runner:
             name = f.id
             if f.id in ev.env:
                 recv = ev.env[f.id]
+        # keyword arguments of a call to a resolved repository function are put in positional order, so that
+        # `f(x, 0, 0, n)` and `f(x, expx=0, expy=0, nnodes=n)` look the same to the rules
+        alltg = inf.targets(call, ("call",))
+        if kwargs and len(alltg) == 1:
+            t = alltg[0]
+            pnames = [p.arg for p in t.node.args.posonlyargs + t.node.args.args]
+            if t.kind in ("method", "getter", "setter", "class") and pnames:
+                pnames = pnames[1:]
+            args, kwargs = list(args), dict(kwargs)
+            while len(args) < len(pnames) and pnames[len(args)] in kwargs:
+                args.append(kwargs.pop(pnames[len(args)]))
         if self.user_hook:
             r = self.user_hook(self, ev, call, name, recv, args, kwargs)
             if r is not NotImplemented:
@@ -160,6 +235,10 @@ class Runner:
         if isinstance(f, ast.Name) and f.id == "Fraction":
             from fractions import Fraction
             return Fraction(*args)
+        if isinstance(f, ast.Name) and f.id in ("copy", "deepcopy") and len(args) >= 1 and isinstance(args[0], StandIn):
+            meth = "__copy__" if f.id == "copy" else "__deepcopy__"
+            if hasattr(args[0], meth):
+                return getattr(args[0], meth)(*args[1:])
         # a helper of the repository that the rule did not abstract: interpret its body too (bounded depth), so that
         # extracting a helper function does not make a rule inconclusive
         cands = [t for t in inf.targets(call, ("call",)) if t.kind in ("static", "func", "method", "class")]
